@@ -70,6 +70,13 @@ Pause ==
   /\ pausec' = TRUE /\ act' = <<"Pause">> /\ ev' = [a |-> "pause"]
   /\ UNCHANGED <<ring, dpos, chunkLo, chunkHi, calls, reachedEnd, encErr, errRing, sstate, stopc, loaded, consumer, dpc, apc, aleft, aout, astate0, popped, cb, lock>>
 
+\* a paused sound is told to resume at a clock time and the clock's handle is dropped in the same window: the wait can
+\* never end, so the sound is cancelled - at the next callback it is Stopped (like stop with a zero-length fade)
+WaitGone ==
+  /\ loaded /\ ~stopc /\ ~pausec /\ sstate = "Paused" /\ lock = "none" /\ apc = "idle"
+  /\ stopc' = TRUE /\ act' = <<"WaitGone">> /\ ev' = [a |-> "waitgone"] /\ UNCHANGED pausec
+  /\ UNCHANGED <<ring, dpos, chunkLo, chunkHi, calls, reachedEnd, encErr, errRing, sstate, loaded, consumer, dpc, apc, aleft, aout, astate0, popped, cb, lock>>
+
 \* the manager (and with it the renderer and the sound) is dropped
 Discard ==
   /\ consumer /\ lock = "none" /\ apc = "idle" /\ dpc \notin {"none", "start"}
@@ -205,7 +212,7 @@ AEnd ==
   /\ UNCHANGED <<ring, dpos, chunkLo, chunkHi, calls, reachedEnd, encErr, errRing, sstate, stopc, pausec, loaded, consumer, dpc, aleft, aout, astate0, popped, lock>>
 
 INext == \/ \E r \in BOOLEAN : Play(r)
-         \/ Reject \/ Stop \/ Pause \/ Discard \/ Pop
+         \/ Reject \/ Stop \/ Pause \/ WaitGone \/ Discard \/ Pop
          \/ DStart \/ DBody \/ DFlag \/ DSleep \/ DExit
          \/ CallbackAtomic \/ AStart \/ AFrame \/ AEnd
 
@@ -228,4 +235,5 @@ ThreadEndsHard == []((dpc \notin {"none", "start"} /\ (~consumer \/ encErr \/ re
 W_Starved == ~(apc = "idle" /\ cb > 1 /\ Len(ring) < 2 /\ ~reachedEnd /\ loaded /\ sstate = "Playing")
 W_Wait == dpc # "wait"
 W_Err == ~encErr
+W_WaitGone == ~(ev.a = "waitgone" /\ bad = "")
 =============================================================================
